@@ -5,9 +5,9 @@ CONSTANTS
   PadKinds = {}
   Feeds = {"fd"}
   MaxLenC = 4
-  KindsC = {"P", "RD", "AL", "GO", "GC", "HD", "HE", "LC", "SE"}
-  ChunkSizes = {0, 1, 2, 3, 5, 7}
+  KindsC = {"P", "RD", "AL", "GO", "GC", "HD", "HE", "SE"}
+  ChunkSizes = {1, 2, 3, 5}
 INVARIANT TypeOK
 INVARIANT OffAtExec
 INVARIANT ChunkIndependent
-INVARIANT NoStall
+CHECK_DEADLOCK TRUE
